@@ -197,6 +197,12 @@ func ruleSendLanguage(c *core.Ctx, rule string) {
 			}
 			s.Obs = next
 		}
+		x.Hooks.Call = func(x *absint.Exec, s *absint.State, site ssa.CallInstruction, callee *ssa.Function, fnv absint.Value, args []absint.Value) (absint.Value, bool) {
+			if callee != nil && (callee.String() == "(*bufio.Scanner).Scan" || callee.String() == "(*bufio.Reader).ReadString" || callee.String() == "(*bufio.Reader).ReadLine" || callee.String() == "(*bufio.Reader).Read") {
+				s.SetData("scanned", "1")
+			}
+			return nil, false
+		}
 		terms := x.Run(x.NewState(fn, nil, nil))
 		if !account(c, x, rule, fn) {
 			continue
@@ -208,6 +214,9 @@ func ruleSendLanguage(c *core.Ctx, rule string) {
 			if tm.Kind != "return" {
 				bad = append(bad, "a path ends in "+tm.Kind)
 				continue
+			}
+			if !strings.Contains(w, "E") && w != "X" && tm.State.Data["scanned"] != "1" {
+				bad = append(bad, fmt.Sprintf("completion is signalled (word %q) on a path that sent no error and never read from the input (%s; %s): the consumer takes an unread file for an empty one, where the callback parser reports its records", w, c.P.Pos(tm.Pos), x.Valuation(tm.State)))
 			}
 			if !strings.HasSuffix(w, "D") && w != "X" {
 				bad = append(bad, fmt.Sprintf("a terminating path sends the word %q, which does not end with Done (%s): a consumer that waits for completion never terminates", w, c.P.Pos(tm.Pos)))
